@@ -159,6 +159,8 @@ def run_case(case):
             class_dict, flat = E.json_to_system(json.loads(text))
         except Exception as ex:
             import traceback
+            if "superior to the number of instances specified" in str(ex) and observe.ceil_boundary_ambiguous(sysm):
+                C["boundary_skipped"] += 1; break      # a fixed count equal to the need within the floating-point boundary (DESIGN §2.5)
             V.append({"kind": f"round trip raised {type(ex).__name__}: {str(ex)[:200]}", "trace": traceback.format_exc()[-500:], **ctx}); break
         C["round_trips"] += 1
         compare_objects(E, orig_objs, flat, V, C, ctx)
